@@ -528,6 +528,12 @@ class Schema:
             a = args[0]
             if a.k == "bytes":
                 return SV("bytes", a.t, x=a.x)
+            if a.k == "blob":
+                # bytearray(b) / bytes(b) of an immutable byte string: the array of its bytes
+                items = fresh("ba", z3.ArraySort(Int, Val))
+                i = fresh("i", Int)
+                st.define(z3.ForAll([i], z3.Implies(z3.And(0 <= i, i < z3.Length(a.t)), z3.Select(items, i) == VInt(a.t[i]))))
+                return SV("bytes", items, x=z3.Length(a.t))
             if name == "bytes" and a.k in ("list", "tuple"):
                 # bytes([b0, b1, ...]) of a display of known length: ValueError outside 0..255
                 items = a.x if a.k == "tuple" else None
@@ -592,6 +598,12 @@ class Schema:
             return self.new_tree(eng, args, st)
         if name == "MultiDiGraph":
             return self.nx.new_graph(eng, st)
+        if name in ("collections.defaultdict", "defaultdict") and len(args) == 1 and args[0].k == "builtin" and args[0].x == "set":
+            # collections.defaultdict(set): an empty dict of sets
+            from .core import EmptySet as _E
+            return SV("dict", z3.K(Val, _E), x=(_E, "set"), cls="defaultdict:set")
+        if name in ("SortedDict", "sortedcontainers.SortedDict") and not args and not kwargs:
+            return SV("dict", z3.K(Val, VNone), x=(EmptySet, "val"), cls="SortedDict")     # an empty sorted mapping
         if name == "zip" and len(args) == 2 and args[0].k == "seq" and args[1].k == "seq":
             # zip of two sequences: pairs (a[i], b[i]) for i below the shorter length, in order (iterated in invariant mode)
             return SV("zip", x=(args[0], args[1]))
@@ -776,6 +788,8 @@ class Schema:
                 if a.k == "star":
                     raise Unsupported("union(*x)")
                 other = eng.as_set(a, st).t
+                if z3.eq(z3.simplify(other), z3.simplify(EmptySet)):
+                    continue            # union with a literally empty operand
                 u = fresh("U", SetSort)
                 x = fresh("x", Val)
                 st.define(z3.ForAll([x], z3.Select(u, x) == z3.Or(z3.Select(cur, x), z3.Select(other, x))))
